@@ -342,6 +342,8 @@ pub fn suite_seg_random(cfg: &Cfg, rep: &mut Report) {
 
 /// Miri runs a thinned set of bucket edges per domain (`--edge_step`)
 static EDGE_STEP: std::sync::atomic::AtomicU32 = std::sync::atomic::AtomicU32::new(1);
+/// how many clear-and-reuse rounds follow each built domain (`--reuse_rounds`, Miri runs 1)
+static REUSE_ROUNDS: std::sync::atomic::AtomicU32 = std::sync::atomic::AtomicU32::new(2);
 
 fn check_domain<R: Coord>(rep: &mut Report, lo: i64, hi: i64, hist: u64) -> Result<(), (Fail, Vec<SOp>)>
 where
@@ -414,6 +416,29 @@ where
             if let Err(f) = ex.step(&op, &mon, rep) {
                 return Err((f, ops));
             }
+            // a cleared tree is still "a constructed tree": the same places must be backed by storage and
+            // the same bucket function must hold when it is used again (twice, with the clock restarted)
+            for round in 0..REUSE_ROUNDS.load(std::sync::atomic::Ordering::Relaxed) as i32 {
+                let mut again: Vec<SOp> = vec![SOp::Clear];
+                let picks: Vec<i64> = if xs.len() <= 8 { xs.clone() } else { xs.iter().copied().step_by(xs.len() / 5).chain([lo, hi]).collect() };
+                for &x in &picks {
+                    again.push(SOp::Ins { lo: x, hi: x, exp: 50 + round });
+                }
+                again.push(SOp::Ins { lo, hi, exp: 60 });
+                again.push(SOp::Ins { lo, hi: xs[xs.len() / 2], exp: 60 });
+                again.push(SOp::Ins { lo: xs[xs.len() / 2], hi, exp: 60 });
+                again.push(SOp::Q { lo: hi, hi, t: 0, take: -1 });
+                again.push(SOp::Q { lo, hi: lo, t: 1, take: -1 });
+                again.push(SOp::Q { lo, hi, t: 2, take: -1 });
+                for op in again {
+                    ops.push(op);
+                    ctx::set(hist, ops.len() as u64);
+                    if let Err(f) = ex.step(&op, &mon, rep) {
+                        return Err((f, ops));
+                    }
+                }
+                rep.counters.inc("domains_reused_after_clear");
+            }
             Ok(())
         }
     }
@@ -441,6 +466,7 @@ pub fn suite_seg_domains(cfg: &Cfg, rep: &mut Report) {
     let parts = cfg.str_or("parts", "gspwx").to_string();
     let kstep = cfg.num("kstep", 1).max(1) as u32;
     EDGE_STEP.store(cfg.num("edge_step", 1).max(1) as u32, std::sync::atomic::Ordering::Relaxed);
+    REUSE_ROUNDS.store(cfg.num("reuse_rounds", 2) as u32, std::sync::atomic::Ordering::Relaxed);
     // grid: all (lo, len) with len 1..=max_len, lo in -max_lo..=max_lo, as i32 domains
     for len in (1..=max_len).filter(|_| parts.contains('g')) {
         for lo in -max_lo..=max_lo {
